@@ -491,3 +491,22 @@ func roundUpRef(a, b int) int {
 	}
 	return a
 }
+
+// C25 (write path): whatever the connection's traffic history, the payload size chosen
+// for the next record is between 1 and 2^14 bytes (RFC 8446 §5.1 / RFC 5246 §6.2.1), so the
+// peer never has to refuse a record for its size.
+// verif: covers=done
+func VerifH_C25_max_payload_size_for_write() {
+	class := vr.Int("class", 0, c25nClasses-1)
+	s := c25Make(class)
+	c := &Conn{config: &Config{DynamicRecordSizingDisabled: vr.Bool("sizingDisabled")}, vers: s.vers}
+	c.out = *s.out
+	c.bytesSent = int64(vr.U32("bytesSent"))
+	c.packetsSent = int64(vr.U16("packetsSent"))
+	typ := recordType(vr.U8("type"))
+	before := c.packetsSent
+	n := c.maxPayloadSizeForWrite(typ)
+	vr.Assert(n >= 1 && n <= maxPlaintext, "the next record carries between 1 and 2^14 plaintext bytes")
+	vr.Assert(c.packetsSent == before || c.packetsSent == before+1, "the packet counter advances by at most one")
+	vr.Cover("done")
+}
